@@ -77,6 +77,10 @@ func (rc *RunCtx) Probe(name string) {
 
 var workloads = map[string]Workload{}
 
+// noBubble: workloads that need no scheduler or fake clock run outside a
+// synctest bubble (they may spawn subprocesses freely).
+var noBubble = map[string]bool{}
+
 // Register adds a workload under a name ("C06", "C06.nofault", …).
 func Register(name string, w Workload) { workloads[name] = w }
 
@@ -125,6 +129,10 @@ func RunOne(t *testing.T, workload string, tape *sim.Tape, opts Opts) (res Resul
 				res.Harness = "panic in harness goroutine: " + msg
 			}
 		}()
+		if noBubble[workload] {
+			w(rc)
+			return
+		}
 		synctest.Test(t, func(t *testing.T) {
 			bubbleStart = time.Now()
 			rc.T = t
